@@ -237,8 +237,44 @@ struct Program {
     }
 };
 
+// reclamation-focused family: a parked traversal, erasers aiming at what it stands on, several short-lived and kept handles
+inline Program gen_reclaim_program(vrf::Rng& rng, uint32_t first_new_id)
+{
+    Program p;
+    p.initial = static_cast<int>(rng.range(2, 5));
+    uint32_t next = first_new_id;
+    int park = static_cast<int>(rng.range(0, p.initial - 1));
+    std::vector<Act> reader{Act{rng.chance(80) ? 'R' : 'W', park, static_cast<int>(rng.range(3, 8)), rng.chance(35)}};
+    if (rng.chance(40)) reader.push_back(Act{'R', static_cast<int>(rng.range(0, 2)), static_cast<int>(rng.range(1, 4)), rng.chance(35)});
+    p.scripts.push_back(reader);
+    std::vector<Act> eraser;
+    unsigned k = static_cast<unsigned>(rng.below(4));
+    if (k == 0) eraser.push_back(Act{'E', -1, 1, false});
+    else {
+        eraser.push_back(Act{'E', park + 1, static_cast<int>(rng.below(2)), rng.chance(35)});
+        if (k >= 2 && park + 2 <= p.initial) eraser.push_back(Act{'E', park + 2, 0, false});
+        if (k == 3 && park >= 1) eraser.push_back(Act{'E', park, 0, false});
+    }
+    if (rng.chance(40)) eraser.push_back(Act{rng.chance(50) ? 'F' : 'b', static_cast<int>(next++), 0, false});
+    p.scripts.push_back(eraser);
+    int extra = static_cast<int>(rng.range(1, 3));
+    for (int t = 0; t < extra; t++) {
+        std::vector<Act> sc;
+        int n = static_cast<int>(rng.range(1, 3));
+        for (int i = 0; i < n; i++) {
+            unsigned r = static_cast<unsigned>(rng.below(100));
+            if (r < 55) sc.push_back(Act{'H', 0, 0, rng.chance(35)});
+            else if (r < 80) sc.push_back(Act{'K', static_cast<int>(rng.range(0, 2)), 0, rng.chance(35)});
+            else sc.push_back(Act{'R', -1, 0, rng.chance(35)});
+        }
+        p.scripts.push_back(sc);
+    }
+    return p;
+}
+
 inline Program gen_program(vrf::Rng& rng, uint32_t first_new_id, bool big = false)
 {
+    if (!big && rng.chance(45)) return gen_reclaim_program(rng, first_new_id);
     Program p;
     p.initial = static_cast<int>(rng.range(0, big ? 8 : 5));
     int nthreads = static_cast<int>(rng.range(2, big ? 6 : 5));
